@@ -425,6 +425,14 @@ func (ff *FnFacts) kill(ins ssa.Instruction, out FactSet) {
 			return
 		}
 		killMentioning(out, func(t *Term) bool { return t.Op == "fv" })
+		// a call may run a closure that writes a captured local: what was stored there is no longer known
+		for k, f := range out {
+			if f.Kind == "stored" && f.A != nil && f.A.Op == "new" {
+				if al, ok := f.A.Val.(*ssa.Alloc); ok && ff.TB.escapes(al) {
+					delete(out, k)
+				}
+			}
+		}
 	}
 }
 
@@ -560,6 +568,27 @@ func (ff *FnFacts) condFacts(cond ssa.Value, truth bool, at *ssa.BasicBlock) []F
 		return []Fact{{Kind: k, A: ff.TB.Of(c)}}
 	case *ssa.Const:
 		return nil
+	case *ssa.Phi:
+		// a boolean built by && / || and kept in a local: phi(false, e) being true means e is true
+		// (phi(true, e) being false means e is false); other shapes stay opaque
+		var nonConst []ssa.Value
+		constsOpposite := true
+		for _, e := range c.Edges {
+			if k, ok := e.(*ssa.Const); ok && k.Value != nil {
+				if (k.Value.String() == "true") == truth {
+					constsOpposite = false
+				}
+				continue
+			}
+			nonConst = append(nonConst, e)
+		}
+		if constsOpposite && len(nonConst) == 1 && nonConst[0] != cond {
+			k := "false"
+			if truth {
+				k = "true"
+			}
+			return append([]Fact{{Kind: k, A: ff.TB.Of(cond)}}, ff.condFacts(nonConst[0], truth, at)...)
+		}
 	}
 	k := "false"
 	if truth {
@@ -759,6 +788,10 @@ func substResult(f Fact, callTerm *Term) Fact {
 
 // nonNilErrorCtor lists functions that never return a nil error.
 func nonNilErrorCtor(fn *ssa.Function) bool {
+	return nonNilErrorCtorDepth(fn, 0)
+}
+
+func nonNilErrorCtorDepth(fn *ssa.Function, depth int) bool {
 	if fn == nil {
 		return false
 	}
@@ -767,7 +800,34 @@ func nonNilErrorCtor(fn *ssa.Function) bool {
 		"github.com/pkg/errors.New", "github.com/pkg/errors.Errorf":
 		return true
 	}
-	return false
+	// a helper of the module whose only result is an error and whose every return
+	// yields the result of a non-nil constructor (e.g. a 'bad request' wrapper)
+	if depth > 2 || len(fn.Blocks) == 0 {
+		return false
+	}
+	res := fn.Signature.Results()
+	if res.Len() != 1 || !isErrorType(res.At(0).Type()) {
+		return false
+	}
+	n := 0
+	for _, b := range fn.Blocks {
+		ret, ok := b.Instrs[len(b.Instrs)-1].(*ssa.Return)
+		if !ok {
+			continue
+		}
+		n++
+		switch v := ret.Results[0].(type) {
+		case *ssa.Call:
+			if !nonNilErrorCtorDepth(v.Common().StaticCallee(), depth+1) {
+				return false
+			}
+		case *ssa.MakeInterface:
+			// a concrete value boxed into error
+		default:
+			return false
+		}
+	}
+	return n > 0
 }
 
 // wrapsNonNil: pkg/errors.Wrap*(err,...) is non-nil iff err is non-nil.
@@ -874,6 +934,25 @@ func (ff *FnFacts) nilErr(v ssa.Value, facts FactSet) (bool, []Fact) {
 		if x.Op == token.MUL {
 			if _, ok := x.X.(*ssa.Global); ok {
 				return false, nil // sentinel error variable
+			}
+			// a (possibly captured) local error variable whose current content is known from a stored fact
+			if al, ok := x.X.(*ssa.Alloc); ok {
+				as := ff.TB.Of(al).String()
+				// what the variable held when it was read: the facts just before the load
+				at := ff.At(x)
+				if at == nil {
+					at = facts
+				}
+				for _, f := range at {
+					if f.Kind == "stored" && f.A != nil && f.A.String() == as && f.B != nil {
+						if f.B.Op == "const" && f.B.Name == "nil" {
+							return true, nil
+						}
+						if sv, isV := f.B.Val.(ssa.Value); isV && sv != v {
+							return ff.nilErr(sv, facts)
+						}
+					}
+				}
 			}
 		}
 	case *ssa.Phi:
